@@ -278,6 +278,9 @@ class Body:
             for i, bb in enumerate(self.blocks):
                 for k, s in enumerate(bb["stmts"]):
                     if s["k"] in ("assign", "setdiscr"):
+                        # a store through a pointer/reference (`(*_x).f = ..`) does not define `_x`
+                        if any(e["k"] == "deref" for e in s["p"].get("proj", [])):
+                            continue
                         d[s["p"]["l"]].append(("stmt", i, k, s))
                 t = bb["term"]
                 if t["k"] == "call":
@@ -380,7 +383,7 @@ class Body:
             for d in ds:
                 if d[0] == "call":
                     cp = callee_path(d[3])
-                    if cp in PASS_THROUGH:
+                    if cp in PASS_THROUGH or (cp or "").startswith("core::convert::num::"):
                         for a in d[3]["args"]:
                             go_op(a, depth + 1)
                         continue
